@@ -2,7 +2,8 @@
 """pytrans6.py — fail-closed translator of the application-facing, synchronous methods of hpfeeds/asyncio/client.py
 (ClientSession.subscribe / unsubscribe / publish, _Protocol.on_publish) to Gallina (coq/AioGen.v), as state transformers over
 the model state of coq/AioSession.v.  coq/AioGenEq.v proves them equal to do_sub / do_unsub / do_pub and to the OP_PUBLISH
-branch of on_frame.  The coroutines (reconnect, close, read) and connection_ready / connection_lost stay hand-written.
+branch of on_frame.  _Protocol.connection_ready / connection_lost are translated too (result: state and whether an exception escaped).
+The coroutines (reconnect, _tryconnect, close, read) stay hand-written.
 
 Reading (the model's, see AioSession.v): self.subscriptions = wanted (a list without duplicates); self.protocol = cur (the
 index of the connection whose handshake completed, None otherwise); self.protocol.subscribe / unsubscribe / publish(self.ident,
@@ -21,6 +22,29 @@ OUT = os.environ.get('PYTRANS6_OUT', os.path.join(HERE, '..', 'coq', 'AioGen.v')
 SRC = 'hpfeeds/asyncio/client.py'
 PROTO = 'hpfeeds/asyncio/protocol.py'
 FRAMES = {'subscribe': ('FSub', 1, 'msgsubscribe'), 'unsubscribe': ('FUnsub', 1, 'msgunsubscribe'), 'publish': ('FPubl', 2, 'msgpublish')}
+
+
+AIO_PRIMS = '''(* session.protocol = p / session.transport = None *)
+Definition set_cur (c : option nat) (s : asess) : asess :=
+  mkas (wanted s) (pc s) c (tr s) (conns s) (closing s) (wc_done s) (wcl_done s) (queue s) (delivered s) (waiting s)
+       (recvd s) (attempts s) (pend s) (outcome s) (cancel_req s) (cst s) (ready s) (raised s).
+Definition set_tr (c : option nat) (s : asess) : asess :=
+  mkas (wanted s) (pc s) (cur s) c (conns s) (closing s) (wc_done s) (wcl_done s) (queue s) (delivered s) (waiting s)
+       (recvd s) (attempts s) (pend s) (outcome s) (cancel_req s) (cst s) (ready s) (raised s).
+(* Future.set_result on a future that is already done raises InvalidStateError *)
+Definition set_result_connected (s : asess) : asess * bool :=
+  if wc_done s then (s, true)
+  else (mkas (wanted s) (pc s) (cur s) (tr s) (conns s) (closing s) true (wcl_done s) (queue s) (delivered s) (waiting s)
+             (recvd s) (attempts s) (pend s) (outcome s) (cancel_req s) (cst s) (ready s) (raised s), false).
+(* when_closed.set_result: the tasks awaiting it (the reconnect task parked at `await self.when_closed`, close()) become ready *)
+Definition set_result_closed (s : asess) : asess * bool :=
+  if wcl_done s then (s, true)
+  else let r1 := match pc s with PWaitClosed => enq TR (ready s) | _ => ready s end in
+       let r2 := match cst s with CWaiting => enq TC r1 | _ => r1 end in
+       (mkas (wanted s) (pc s) (cur s) (tr s) (conns s) (closing s) (wc_done s) true (queue s) (delivered s) (waiting s)
+             (recvd s) (attempts s) (pend s) (outcome s) (cancel_req s) (cst s) r2 (raised s), false).
+
+'''
 
 
 class Unsupported(Exception):
@@ -112,6 +136,51 @@ class Fn:
         raise Unsupported(s, 'statement')
 
 
+class ProtoFn:
+    """_Protocol callbacks: self = the protocol object of connection t_k; the result is (state, an exception escaped)"""
+
+    def __init__(self, params):
+        self.params = set(params)
+
+    def stmts(self, body):
+        body = [x for x in body if not (isinstance(x, ast.Expr) and isinstance(x.value, ast.Constant))]
+        if not body:
+            return '(s, false)'
+        s, rest = body[0], body[1:]
+        r = self.stmts(rest)
+
+        def then(term):                  # a statement that cannot raise
+            return '(let s := %s in %s)' % (term, r)
+
+        def thenx(term):                 # a statement that may raise: (state, raised?)
+            return "(let '(s, t_exn) := %s in if t_exn then (s, true) else %s)" % (term, r)
+        # self.client.protocol = self / self.client.transport = None
+        if isinstance(s, ast.Assign) and len(s.targets) == 1 and is_attr(s.targets[0]) and is_attr(s.targets[0].value, 'client') \
+                and is_name(s.targets[0].value.value, 'self'):
+            a = s.targets[0].attr
+            if a == 'protocol' and is_name(s.value, 'self'):
+                return then('(set_cur (Some t_k) s)')
+            if a == 'transport' and isinstance(s.value, ast.Constant) and s.value.value is None:
+                return then('(set_tr None s)')
+            raise Unsupported(s, 'assignment to self.client.%s' % a)
+        # for topic in self.client.subscriptions: self.subscribe(self.ident, topic)
+        if (isinstance(s, ast.For) and not s.orelse and is_name(s.target) and is_attr(s.iter, 'subscriptions') and is_attr(s.iter.value, 'client')
+                and is_name(s.iter.value.value, 'self') and len(s.body) == 1 and isinstance(s.body[0], ast.Expr)
+                and isinstance(s.body[0].value, ast.Call)):
+            c = s.body[0].value
+            if (self_attr(c.func, 'subscribe') and len(c.args) == 2 and self_attr(c.args[0], 'ident') and is_name(c.args[1], s.target.id)
+                    and not c.keywords):
+                return then('(fold_left (fun t_s %s => wrk ident secret t_k (FSub %s) t_s) (wanted s) s)' % (s.target.id, s.target.id))
+            raise Unsupported(s, 'loop body')
+        # self.client.when_connected.set_result(None) / self.client.when_closed.set_result(None)
+        if isinstance(s, ast.Expr) and isinstance(s.value, ast.Call) and is_attr(s.value.func, 'set_result') and not s.value.keywords:
+            f = s.value.func.value
+            if (is_attr(f) and f.attr in ('when_connected', 'when_closed') and is_attr(f.value, 'client') and is_name(f.value.value, 'self')
+                    and len(s.value.args) == 1 and isinstance(s.value.args[0], ast.Constant) and s.value.args[0].value is None):
+                return thenx('(%s s)' % ('set_result_connected' if f.attr == 'when_connected' else 'set_result_closed'))
+        raise Unsupported(s, 'statement in a _Protocol callback')
+
+
 def method(tree, cls, name, nparams):
     cl = [s for s in tree.body if isinstance(s, ast.ClassDef) and s.name == cls]
     if len(cl) != 1:
@@ -129,6 +198,13 @@ def main():
     try:
         check_protocol_writers()
         tree = ast.parse(open(os.path.join(REPO, SRC)).read())
+        for s in tree.body:
+            if isinstance(s, ast.ClassDef) and s.name == '_Protocol':
+                if [b.id for b in s.bases if is_name(b)] != ['ClientProtocol']:
+                    raise Unsupported(s, '_Protocol bases')
+                for m in s.body:
+                    if isinstance(m, ast.FunctionDef) and m.name in FRAMES:
+                        raise Unsupported(m, '_Protocol overrides %s' % m.name)
         defs = []
         for cls, name, n in (('ClientSession', 'subscribe', 1), ('ClientSession', 'unsubscribe', 1), ('ClientSession', 'publish', 2),
                              ('_Protocol', 'on_publish', 3)):
@@ -136,6 +212,11 @@ def main():
             term = Fn(params).stmts(body, None)
             defs.append('(* %s: %s.%s *)\nDefinition %s_%s %s(s : asess) : asess :=\n  %s.'
                         % (SRC, cls, name, cls.strip('_'), name, ''.join('(%s : bytes) ' % p for p in params), term))
+        for name, n in (('connection_ready', 0), ('connection_lost', 1)):
+            params, body = method(tree, '_Protocol', name, n)
+            term = ProtoFn(params).stmts(body)
+            defs.append('(* %s: _Protocol.%s (self = the protocol object of connection t_k; the bool: an exception escaped) *)\n'
+                        'Definition Protocol_%s (t_k : nat) (s : asess) : asess * bool :=\n  %s.' % (SRC, name, name, term))
         txt = ('(* GENERATED by harness/pytrans6.py from %s - do not edit *)\n'
                'From Coq Require Import ZArith List Bool.\nFrom Coq Require Import Strings.Byte.\n'
                'From HP Require Import Bytes AioSession.\nImport ListNotations.\n\n'
@@ -145,7 +226,7 @@ def main():
                '  mkas (wanted s) (pc s) (cur s) (tr s) (conns s) (closing s) (wc_done s) (wcl_done s)\n'
                '       (queue s ++ [m]) (delivered s) (waiting s) (recvd s ++ [m]) (attempts s) (pend s) (outcome s)\n'
                '       (cancel_req s) (cst s) (ready s) (raised s).\n\n'
-               % os.path.join(REPO, SRC)) + '\n\n'.join(defs) + '\n\nEnd Gen.\n'
+               % os.path.join(REPO, SRC)) + AIO_PRIMS + '\n\n'.join(defs) + '\n\nEnd Gen.\n'
     except (Unsupported, OSError, SyntaxError) as e:
         sys.stderr.write('pytrans6: cannot translate: %s\n' % e)
         return 2
